@@ -39,6 +39,17 @@ pub fn gen(seed: u64, tier: Tier) -> ScenarioSpec {
             f.items = 0;
         }
     }
+    // an idle (paused, nothing moves) recording of many minutes: compresses to a few bytes per frame
+    let idle = !huge && rng.chance(1, if tier == Tier::Thorough { 1500 } else { 4000 });
+    if idle {
+        let n = 24_000 + rng.usize_below(40_000);
+        let pseed = rng.next_u64();
+        let present = rec.frames.first().map_or(0b0101, |f| f.present);
+        rec.frames = (0..n).map(|k| FrameSpec { id: -123 + k as i32, present, items: 0, pseed: crate::prng::mix(pseed, k as u64) }).collect();
+        rec.idle = true;
+        rec.gecko = None;
+        rec.irregular = Irregular::default();
+    }
     if rng.chance(1, if tier == Tier::Thorough { 2000 } else { 8000 }) {
         let n = 1_100_000 + rng.usize_below(400_000);
         rec.metadata = Some(gen::gen_big_tree(&mut rng, n));
@@ -71,6 +82,7 @@ pub fn run(spec: &ScenarioSpec, ctx: &mut Ctx) -> Result<(), Violation> {
     shape_of_model(ctx, &m, spec);
     ctx.shape("comp", spec.compression as u64);
     ctx.shape("hash", spec.opts.compute_hash as u64);
+    ctx.probe_if(spec.recorder.idle, "idle recording of many minutes (compresses to a few bytes per frame)");
     ctx.probe(match spec.compression {
         Compression::None => "compression none",
         Compression::Lz4 => "compression LZ4",
